@@ -18,6 +18,7 @@ import (
 
 	log "github.com/hashicorp/go-hclog"
 	"github.com/openbao/openbao/sdk/v2/helper/verifx"
+	"github.com/openbao/openbao/sdk/v2/helper/wrapping"
 	"github.com/openbao/openbao/sdk/v2/logical"
 	"github.com/openbao/openbao/sdk/v2/physical"
 	"github.com/openbao/openbao/sdk/v2/physical/inmem"
@@ -705,7 +706,14 @@ func (b *recBE) HandleRequest(ctx context.Context, req *logical.Request) (*logic
 		return &logical.Response{Auth: a}, nil
 	case strings.HasPrefix(p, "unauth/"), strings.HasPrefix(p, "root/"), strings.HasPrefix(p, "echo/"):
 		marker, _ := req.Data["marker"].(string)
-		return &logical.Response{Data: map[string]any{"path": p, "marker": marker, "op": string(req.Operation)}}, nil
+		resp := &logical.Response{Data: map[string]any{"path": p, "marker": marker, "op": string(req.Operation)}}
+		if n, ok := req.Data["self_wrap_ttl_seconds"].(int); ok && n > 0 {
+			// an engine that asks for its response to be wrapped (as pki, ssh or approle paths may), optionally
+			// filling in more of the wrap info than the TTL
+			cp, _ := req.Data["self_wrap_creation_path"].(string)
+			resp.WrapInfo = &wrapping.ResponseWrapInfo{TTL: time.Duration(n) * time.Second, CreationPath: cp}
+		}
+		return resp, nil
 	}
 	return nil, logical.ErrUnsupportedPath
 }
